@@ -201,3 +201,115 @@ def kat_tables(check, ctx, rule="K-kat"):
                  expected=what)
     check.count("c_kat_rows", total)
     return total
+
+
+def _eks_cases(thorough=False):
+    """(key, salt, cost, invert): key lengths at the ends of the range, at and off the word boundary and longer than the
+    18-word P-array's first wrap; costs 0..2 (the loop count is 1 << cost, so 2 shows the shift, not a multiplication)."""
+    salt = bytes((i * 37 + 11) & 255 for i in range(16))
+    def key(n):
+        return bytes(((i * 29 + 7) & 0xFE) | 1 for i in range(n))
+    cases = []
+    for klen in (1, 3, 4, 5, 18, 55, 71, 72):
+        cases.append((key(klen), salt, 0, 1))
+    cases.append((key(9), salt, 0, 0))
+    cases.append((key(9), salt, 1, 0))
+    cases.append((key(9), salt, 1, 1))
+    if thorough:
+        cases.append((key(72), salt, 2, 1))
+        cases.append((key(17), salt, 3, 0))
+    cases.append((b"U*U\x00", bytes(range(0x80, 0x90)), 1, 1))
+    cases.append((key(6), bytes([0xFF] * 16), 0, 1))          # every salt word has the top bit set
+    cases.append((key(6), salt[:8], 0, 1))                    # a salt shorter than one pass: read cyclically
+    return cases
+
+
+def eks_rows_thorough(prog, sh=None):
+    return eks_rows(prog, sh, thorough=True)
+
+
+def eks_rows(prog, sh=None, thorough=False):
+    """The native bcrypt key schedule (blowfish.c compiled with EKS) against spec/blowfish_ref.py: the whole state after
+    EksBlowfishSetup (P-array and S-boxes), ECB encryption and decryption under it, refusal of a 73-byte key."""
+    from ..spec import blowfish_ref as ref
+    sh = sh or Shard()
+    wrong = []
+    n = 0
+    try:
+        ref.self_check()
+    except AssertionError as e:
+        raise Undecided("the Blowfish reference fails its own published vectors: %s" % e)
+    src = "src/blowfish_eks.c"
+    for (key, salt, cost, invert) in _eks_cases(thorough):
+        if not sh.take():
+            continue
+        m = Machine(prog, src, budget=400000000)
+        rc, st = _start(m, "EKSBlowfish_start_operation",
+                        [m.alloc_bytes(list(key), "key"), len(key), m.alloc_bytes(list(salt), "salt"), len(salt), cost, invert])
+        n += 1
+        tag = "EksBlowfishSetup(cost %d, %d-byte key, %d-byte salt, invert=%d)" % (cost, len(key), len(salt), invert)
+        if rc != 0:
+            wrong.append("%s refused with code %r" % (tag, rc))
+            continue
+        P, S = ref.eks_setup(key, salt, cost, bool(invert))
+        t = resolve(m.tu.parse("EKSBlowfish_State"))
+        off, at = t.fields["algo_state"]
+        at = resolve(at)
+        got = {}
+        for fld, cnt in (("S", 1024), ("P", 18)):
+            foff, ft = at.fields[fld]
+            raw = m.concrete_bytes(P_(st, off + foff), 4 * cnt)
+            got[fld] = [int.from_bytes(raw[4 * i:4 * i + 4], "little") for i in range(cnt)]
+        if got["P"] != P:
+            i = [a != b for a, b in zip(got["P"], P)].index(True)
+            wrong.append("%s: P[%d] = %08x, the specification gives %08x" % (tag, i, got["P"][i], P[i]))
+            continue
+        flatS = [w for box in S for w in box]
+        if got["S"] != flatS:
+            i = [a != b for a, b in zip(got["S"], flatS)].index(True)
+            wrong.append("%s: S[%d][%d] = %08x, the specification gives %08x" % (tag, i // 256, i % 256, got["S"][i], flatS[i]))
+            continue
+        pt = b"OrpheanBeholderScryDoubt"
+        want = ref.ecb(P, S, pt)
+        rc, ct = _blockbase_call(m, st, "encrypt", pt)
+        if rc or ct != want:
+            wrong.append("%s: E(%r) = %s, the specification gives %s" % (tag, pt, ct.hex() if ct else rc, want.hex()))
+        rc, back = _blockbase_call(m, st, "decrypt", want)
+        if rc or back != pt:
+            wrong.append("%s: D(E(x)) = %s, not x" % (tag, back.hex() if back else rc))
+        live = _stop(m, st)
+        if live:
+            wrong.append("%s: stop_operation leaves %s allocated" % (tag, live[0].name))
+        bad = [x for x in m.events if x[0] in ("bad-shift", "signed-overflow", "uninit-read", "overlap")]
+        if bad:
+            wrong.append("%s: %s (line %s)" % (tag, bad[0][1], bad[0][2]))
+    if sh.take():
+        m = Machine(prog, src, budget=20000000)
+        rc, st = _start(m, "EKSBlowfish_start_operation",
+                        [m.alloc_bytes([1] * 73, "key"), 73, m.alloc_bytes([2] * 16, "salt"), 16, 0, 1])
+        n += 1
+        if rc == 0:
+            wrong.append("a 73-byte key is accepted (bcrypt uses at most 72 bytes; xorP would read only a prefix silently)")
+    return n, wrong
+
+
+def P_(st, off):
+    return P(st.obj, st.off + off)
+
+
+def eks_tables(check, ctx, rule="K-pw"):
+    prog = CProgram(ctx.cdb)
+    fname = "eks_rows_thorough" if ctx.tier == "thorough" else "eks_rows"
+    res = run_sharded(ctx.root, prog, __name__, [fname], shards=16)
+    n, wrong, und = res[fname]
+    if und:
+        raise AnalysisError("C evaluator could not decide the EKSBlowfish rows: %s" % (und,))
+    check.ob(rule, "%s|c|eksblowfish.setup" % rule, not wrong, "src/blowfish.c", 0,
+             extracted=("%d of %d rows differ: " % (len(wrong), n) + "; ".join(wrong[:3])) if wrong else
+             "%d rows: whole key-schedule state and ECB output equal to the reference" % n,
+             expected="EksBlowfishSetup (Provos-Mazieres 1999, OpenBSD order when invert) through EKSBlowfish_start_operation: "
+                      "P-array and S-boxes equal to an independent reference whose initial tables are computed as the digits "
+                      "of pi and which reproduces Schneier's vector and the OpenBSD bcrypt vector for 'U*U'; key lengths 1..72 "
+                      "around the word and P-array boundaries, costs 0..1 (0..3 in the thorough tier), both loop orders, a short salt; 73 bytes refused")
+    check.count("c_eks_rows", n)
+    return n
